@@ -1372,3 +1372,95 @@ Proof.
   - exfalso. apply Hn. rewrite <- E. now apply in_map.
   - now apply IH.
 Qed.
+
+(* ================================================================= idents never contain '/' *)
+
+Lemma no_slash_skipn n x : no_slash x = true -> no_slash (skipn n x) = true.
+Proof.
+  revert x. induction n as [|n IH]; intros [|c x] H; simpl; auto.
+  simpl in H. apply andb_true_iff in H as [_ H]. now apply IH.
+Qed.
+
+Lemma replace_fuel_keeps f old new : forall x,
+  no_slash new = true -> no_slash x = true -> no_slash (replace_fuel f old new x) = true.
+Proof.
+  induction f as [|f IH]; intros x Hn Hx; simpl; [assumption|].
+  destruct x as [|c x']; [reflexivity|].
+  destruct (starts_with old (c :: x')).
+  - rewrite no_slash_app, Hn. simpl. apply IH; [assumption|]. now apply no_slash_skipn.
+  - simpl in Hx. apply andb_true_iff in Hx as [Hc Hx]. simpl. rewrite Hc. simpl. now apply IH.
+Qed.
+
+Lemma replace_fuel_removes new : forall f x,
+  length x < f -> no_slash new = true -> no_slash (replace_fuel f [slash] new x) = true.
+Proof.
+  induction f as [|f IH]; intros x L Hn; [lia|].
+  destruct x as [|c x']; [reflexivity|]. simpl in L.
+  cbn [replace_fuel starts_with].
+  destruct (Ascii.eqb slash c) eqn:E.
+  - cbn [andb length skipn]. rewrite no_slash_app, Hn. simpl. apply IH; [lia|assumption].
+  - cbn [andb]. simpl. unfold ch_eqb. rewrite Ascii.eqb_sym, E. simpl. apply IH; [lia|assumption].
+Qed.
+
+Lemma final_name_noslash n : no_slash (final_name n) = true.
+Proof.
+  unfold final_name.
+  set (n2 := replace (s ">") (s "gt") (replace (s "<") (s "lt") (lower n))).
+  assert (H3 : no_slash (replace (s "/") (s "SLASH") n2) = true).
+  { unfold replace. change (s "/") with [slash]. cbv iota. apply replace_fuel_removes; [lia|reflexivity]. }
+  set (n3 := replace (s "/") (s "SLASH") n2) in *.
+  assert (H4 : no_slash (replace (s "*") (s "ASTERISK") n3) = true).
+  { unfold replace. change (s "*") with ["*"%char]. cbv iota. now apply replace_fuel_keeps. }
+  destruct (replace (s "*") (s "ASTERISK") n3); [reflexivity|exact H4].
+Qed.
+
+Lemma uint_noslash d : no_slash (s (DecimalString.NilEmpty.string_of_uint d)) = true.
+Proof. induction d; simpl; auto. Qed.
+
+Lemma render_noslash b k : no_slash b = true -> no_slash (render b k) = true.
+Proof.
+  intros H. unfold render. destruct (k <=? 1); [assumption|].
+  rewrite no_slash_app, H. simpl. unfold dec. apply uint_noslash.
+Qed.
+
+Lemma run_idents_noslash rs n : In n (run_idents rs) -> no_slash n = true.
+Proof.
+  intros H. apply In_nth_error in H as (i & Hi).
+  destruct (run_spec rs init [] inv_init) as (_ & P & _ & L & O); [intros it []|].
+  unfold run_idents in *.
+  assert (Hr : exists r, nth_error rs i = Some r).
+  { destruct (nth_error rs i) as [r|] eqn:E; [eauto|].
+    apply nth_error_None in E. assert (i < length (snd (run init rs))) by (apply nth_error_Some; congruence). lia. }
+  destruct Hr as (r & Hr). destruct (O i r Hr) as (it & Hit & _ & Hn).
+  rewrite Hi in Hn. injection Hn as ->.
+  destruct (P it Hit) as (r' & _ & _ & _ & Hb).
+  unfold Names.ident_of. apply render_noslash. rewrite Hb. apply final_name_noslash.
+Qed.
+
+Lemma lookup_ident_in id : forall ids ns,
+  lookup_ident id (combine ids ns) = [] \/ In (lookup_ident id (combine ids ns)) ns.
+Proof.
+  induction ids as [|i ids IH]; intros [|n ns]; simpl; auto.
+  destruct (Nat.eqb i id); [right; now left|]. destruct (IH ns) as [H|H]; auto.
+Qed.
+
+Theorem ident_of_noslash A id : no_slash (ident_of A id) = true.
+Proof.
+  unfold ident_of, ident_table. cbv zeta.
+  destruct (lookup_ident_in id (map r_id (all_reqs A)) (run_idents (all_reqs A))) as [->|H]; [reflexivity|].
+  eapply run_idents_noslash; eauto.
+Qed.
+
+(* the round trip without any assumption about names *)
+Theorem roundtrip_all A b v locals m e w :
+  wf_A A -> base_ok b ->
+  In m (a_modules A) -> In e (e_kids m) -> accessible e = true -> pub_class (e_kind e) = Some w ->
+  lower_in (e_name m) locals = false ->
+  exists tops xm x u mu,
+    load_json b (export A v) = Ok tops /\
+    find_used_module locals tops (e_name m) = Ok (Some (HExt xm)) /\
+    module_url (ident_of A) m = Some mu /\ x_url xm = JStr (spec_join b mu) /\
+    used_lookup xm w (e_name e) = Ok (Some x) /\
+    x_name x = JStr (e_name e) /\
+    kid_url (ident_of A) m e = Some u /\ x_url x = JStr (spec_join b u).
+Proof. intros. apply roundtrip; auto using ident_of_noslash. Qed.
